@@ -409,6 +409,25 @@ def r_context_is_current(ctx, rule="C20.X"):
         for b, t in body.calls():
             nm = mir.callee_path(t).split("::")[-1]
             if nm not in ("set_context", "parse"):
+                # a private method of the same combinator that is handed self: what it does to the children's contexts
+                g = prog.fns.get(t.get("res") or mir.callee_of(t))
+                if g is not None and g.crate == "rusty_pc" and g.id != f.id and g.kind != "closure" and t["args"] \
+                        and mir.strip_refs(pv.of_operand(t["args"][0])) == ("param", 0) and g.impl is not None and f.impl is not None \
+                        and g.impl.get("self_adt") == f.impl.get("self_adt"):
+                    gpv = mir.Prov(g.body)
+                    gs, gp = {}, {}
+                    for gb, gt in g.body.calls():
+                        gn = mir.callee_path(gt).split("::")[-1]
+                        if gn in ("set_context", "parse"):
+                            gf = common.receiver_field(gpv, gt)
+                            if gf is not None:
+                                (gs if gn == "set_context" else gp).setdefault(gf, set()).add(gb)
+                    exits = [e for e in g.body.exits() if not g.body.is_cleanup(e)]
+                    for gf, blocks in gs.items():
+                        if gf not in gp and all(g.body.every_path_passes(0, {e}, blocks) for e in exits):
+                            setters.setdefault(gf, set()).add(b)
+                    for gf in gp:
+                        parses.setdefault(gf, set()).add(b)
                 continue
             fld = common.receiver_field(pv, t)
             if fld is None:
